@@ -732,7 +732,7 @@ proof { assert(old(self).first_match(*named, false, ix as int)); }
 -> (b: bool) ensures b == named.matches_spec(*arg.1, adjacent) {
 //@@ insert after 1 `named.matches_arg(arg.1, adjacent)`
 }
-//@@ insert before 1 `let val_ix = key_ix + 1;`
+//@@ insert before 1 `let val_ix`
 proof { assert(old(self).first_match(*named, adjacent, key_ix as int)); }
 //@@ end
 
